@@ -13,8 +13,6 @@ namespace {
 
 static const auto g_processStartTime = std::chrono::steady_clock::now();
 
-static const QChar DEL_MARKER = QChar(0x200B);
-
 class Token
 {
 public:
@@ -22,6 +20,17 @@ public:
     virtual size_t estimatedLength() const = 0;
     virtual bool checkCondition(const LogMessage &) const { return true; }
     virtual void appendToString(const LogMessage &lmsg, QString &dest) const = 0;
+
+    // Literal text only: append without the first `skip` characters (they are claimed by an
+    // absent optional attribute in front of it, see AttributeToken)
+    virtual void appendSkipping(const LogMessage &lmsg, QString &dest, int skip) const
+    {
+        Q_UNUSED(skip)
+        appendToString(lmsg, dest);
+    }
+
+    // Number of characters the literal text that follows has to drop
+    virtual int removeAfter(const LogMessage &) const { return 0; }
 };
 
 class ConditionToken : public Token
@@ -237,21 +246,15 @@ class LiteralToken : public FormattedToken
 public:
     explicit LiteralToken(const QString &text) : m_text(text) { }
 
-    void appendToString(const LogMessage &, QString &dest) const override
+    void appendToString(const LogMessage &, QString &dest) const override { dest.append(m_text); }
+
+    void appendSkipping(const LogMessage &, QString &dest, int skip) const override
     {
-        int removeCount = 0;
-        while (!dest.isEmpty() && dest.at(dest.size() - 1) == DEL_MARKER) {
-            dest.chop(1);
-            removeCount++;
+        if (skip < m_text.size()) {
+            dest.append(m_text.mid(skip));
         }
 
-        if (removeCount > 0 && removeCount < m_text.size()) {
-            dest.append(m_text.mid(removeCount));
-        } else if (removeCount == 0) {
-            dest.append(m_text);
-        }
-
-        // If removeCount >= m_text.size(), append nothing
+        // If skip >= m_text.size(), append nothing
     }
 
     size_t estimatedLength() const override { return m_text.size(); }
@@ -756,14 +759,19 @@ public:
             return;
         }
 
-        // Optional attribute not found: remove characters before and add ZWSP markers for removeAfter
+        // Optional attribute not found: remove characters before; the characters to remove
+        // after it are reported through removeAfter()
         if (m_removeBefore > 0 && dest.size() >= m_removeBefore) {
             dest.chop(m_removeBefore);
         }
-        // Append ZWSP markers to signal how many chars to remove from next token
-        for (int i = 0; i < m_removeAfter; ++i) {
-            dest.append(DEL_MARKER);
+    }
+
+    int removeAfter(const LogMessage &lmsg) const override
+    {
+        if (m_optional && m_removeAfter > 0 && !lmsg.hasAttribute(m_attributeName)) {
+            return m_removeAfter;
         }
+        return 0;
     }
 
     size_t estimatedLength() const override
@@ -952,13 +960,17 @@ public:
         QString result;
         result.reserve(estimatedLength);
 
+        int skip = 0;
         for (const auto &token : std::as_const(m_tokens)) {
             if (token->checkCondition(lmsg)) {
-                token->appendToString(lmsg, result);
+                if (skip > 0) {
+                    token->appendSkipping(lmsg, result, skip);
+                } else {
+                    token->appendToString(lmsg, result);
+                }
+                skip = token->removeAfter(lmsg);
             }
         }
-
-        result.remove(DEL_MARKER);
 
         return result;
     }
